@@ -39,7 +39,8 @@ CHECKS.update({
              '_get_balanced_split, its slices and masks, the leaf test): for every n, max_leaf_size and overlap oracle that leaves two '
              'unshared samples per split the construction terminates within n+1 levels with no assertion failing and every leaf <= '
              'max_leaf_size; children are ceil/floor halves plus the band; depth <= ceil(log2(n/L)) at zero overlap; forced split counts '
-             'are honoured; the float hypothesis follows from (1-2f)L >= 4. Sizes are data independent by construction. Tied to the code by '
+             'are honoured; the float hypothesis follows from (1-2f)L >= 4. Sizes are data independent: for every sort/permutation oracle meeting its '
+             'contract the index-level tree of C07/C08 has the shape, leaf sizes and split count of the size skeleton (sizes_independent_of_data). Tied to the code by '
              'the translator and by an exhaustive size grid of real _build_tree runs (stubbed leaves) plus real fits for every split method '
              'on degenerate data under a wall-clock guard.',
         note=TB + 'Modelled, not verified: torch.sort/median/quantile (rank split needs only that sort returns a permutation), the float '
@@ -92,10 +93,11 @@ CHECKS.update({
         text='Lean theorems at R show that the closed-form gradient the driver executes is, coordinate by coordinate (HasDerivAt along each '
              'axis), the partial derivative of every CPU kernel and of the whole predictor sum_i c_{l,i} k(x_i,.), through a diagonal feature '
              'matrix end to end, with output-wise linearity (no mixing between outputs), the chain rule for a symmetric matrix, and an exactly '
-             'zero term for a coinciding center. The real get_function_grads, RFM.get_grads and xRFM.get_grads are compared with these closed '
+             'zero term for a coinciding center; for no transform and a diagonal transform the joint Frechet derivative of the predictor on R^n is '
+             'proved to be the returned row (C04_full_no_transform, C04_full_diag). The real get_function_grads, RFM.get_grads and xRFM.get_grads are compared with these closed '
              'forms under a computed allowance, and independently with Richardson finite differences of the real kernel and predict.',
-        note=TB + 'Per-coordinate only: the joint HasFDerivAt statement C04_full, the full-matrix chain rule tied to the list kernels and the '
-             'light kernel with a full matrix are stated, not proved. Exact real arithmetic; rounding (incl. the unmasked self-term cancellation of '
+        note=TB + 'The joint HasFDerivAt statement C04_full is proved for T = none and T = diagonal (L2, product, Lpq, sum-power); for a full matrix '
+             'transform tied to the list kernels and for the light kernel only the per-coordinate theorems and the chain rule are proved. Exact real arithmetic; rounding (incl. the unmasked self-term cancellation of '
              'the expansion-distance kernels) is absorbed by a computed per-entry allowance. No translator tie (correspondence only). torch '
              'autograd, cdist, solve, SVD are modelled, not verified.',
         technique='Lean 4 + Mathlib calculus (HasDerivAt) over a scalar-generic executable model; float64 correspondence with computed allowance; finite-difference oracle',
@@ -117,8 +119,8 @@ CHECKS.update({
              'none when routed validation exceeds the refill size or for a single leaf; reported indices, rows and targets are indexed by the same '
              'lists. Recorded real fits feed their sort/randperm values to the Lean build; leaf index lists must be identical.',
         note=TB + 'Modelled, not verified: torch.sort/randperm (permutation contract, checked on every recorded value), boolean-mask indexing and '
-             'torch.cat (list semantics), int(n*0.2) (oracle; = n//5 checked for all n up to 1e5/2e6 in C06). ok (no assertion failure) is an '
-             'hypothesis here and a theorem of C06 for the size skeleton.',
+             'torch.cat (list semantics), int(n*0.2) (oracle; = n//5 checked for all n up to 1e5/2e6 in C06). That the construction fails no assertion '
+             'and has enough fuel is a theorem (construction_ok), so the partition theorem is unconditional.',
         technique='Lean 4 proof (List.Perm algebra, induction over the construction, regenerated integer code) + recorded-oracle differential check',
         ref='DESIGN.md §6 C07'),
     'C08': dict(
@@ -147,7 +149,7 @@ CHECKS.update({
         text='Proved in Lean over R for every K>=2 and every prior (zeros included): under the QR contract Q^T Q = I, Q Q^T = I - J/K the augmented '
              'code matrix is invertible with inverse [Q|prior], so the stored inverse decodes v to prior + Qv; hence prevalence and zero_one '
              'round-trips, squared code distance 2, zero -> prior, affinity before clamping, and validity of clamp-normalised decodes of any real '
-             'vector. The same definitions run on Float against the real ClassificationConverter, exhaustively over count vectors for small K and '
+             'vector for 0 < eps < 1 (at eps = 0: valid iff an entry is positive; the all-non-positive zero_one row divides by zero, reproduced). The same definitions run on Float against the real ClassificationConverter, exhaustively over count vectors for small K and '
              'on a grid up to K=12 with decoder inputs up to 1e6.',
         note=TB + 'Q (torch.linalg.qr) and _invA (torch.linalg.inv) are oracles whose contracts are checked on every value the implementation '
              'produced; float32 rounding is outside the theorems and absorbed by computed allowances.',
@@ -166,12 +168,14 @@ CHECKS.update({
         ref='DESIGN.md §6 C14'),
     'C19': dict(
         text='Scale laws of the sort-based lower/upper median, of distances in each kernel\'s own norm (any transform), of the adapted bandwidth, of '
-             'every Laplace-family kernel value and of the whole Gram matrix are proved in Lean at R; invariance of every iterate\'s predictions '
-             'is proved for any iteration budget given a scale-covariant AGOP step, and unconditionally for the first solve. Real adaptive fits '
+             'every Laplace-family kernel value and of the whole Gram matrix are proved in Lean at R; gradient homogeneity (every kernel, transform, '
+             'output) and scale freedom of the max-normalised AGOP give invariance of every iterate\'s predictions for any iteration budget with '
+             'the implementation\'s AGOP step (fit_scale_invariant_concrete; linear solve and matrix root abstract functions). The AGOP-step model '
+             'is compared with RFM.fit_M. Real adaptive fits '
              'are checked for bandwidth = base x median of the stored transformed centers of the selected iterate and for prediction invariance '
              'under rescaling by 1e-3..1e3.',
-        note=TB + 'AGOP scale covariance is an unproved contract (fit_scale_invariant_partial; full statement kept as a Prop); the <1e-14 median '
-             'guard is assumed off; the float64 prediction comparison uses a computed distance-rounding allowance (with a heuristic (1+iters) factor).',
+        note=TB + 'Guards of fit_scale_invariant_concrete: the <1e-14 median guard and the <1e-10 gradient masks fire alike at both scales '
+             '(satisfiable); the 1e-30 normalisation jitter is idealised to 0, gradients are not centred, all centers are used; the float64 prediction comparison uses a computed distance-rounding allowance (with a heuristic (1+iters) factor).',
         technique='Lean 4 + Mathlib (List.map_mergeSort, rpow algebra, induction over the fit loop with oracles) + rescaled real fits with scripted selection',
         ref='DESIGN.md §6 C19'),
 })
@@ -214,10 +218,10 @@ CHECKS.update({
     'C20': dict(
         text='Theorems (Props/C20.lean): in the coercion model of xRFM.fit/predict/validate_data/labels_to_numerical all documented representations '
              'of the same data (container x dtype x shape, complete finite table) reach the leaves as one canonical float32 tensor and outputs '
-             'have the documented shape/dtype; representations outside the interface are stated explicitly. Tied to the code by recording every '
+             'have the documented shape/dtype; pre-encoded float labels with a classification metric likewise; representations outside the interface are stated explicitly. Tied to the code by recording every '
              'leaf input for every documented representation and by bit-exact comparison of predict/predict_proba across representations.',
         note=TB + 'Thin: finite table over a hand-written model (no translator recipe); value conversion is torch\'s; decided mostly by the '
-             'correspondence. NumPy uint16/32/64 labels and float64 feature tensors are outside the claimed interface (they raise / are not converted).',
+             'correspondence. float64 feature tensors are outside the claimed interface (not converted).',
         technique='Lean 4 decide over an exhaustive finite table + bit-exact differential testing across representations',
         ref='DESIGN.md §6 C20'),
 })
